@@ -32,6 +32,10 @@ def programs(tier):
               'Entity c = place("assembling-machine-1", 8, -20);\nEntity d = place("storage-tank", 14, -20);\nEntity s = place("substation", 20, -20);\n',
               [("pump", 0, -20, ()), ("train-stop", 4, -20, (("station", "Iron Pickup"),)), ("assembling-machine-1", 8, -20, ()),
                ("storage-tank", 14, -20, ()), ("substation", 20, -20, ())]))
+    P.append(("user-poles", 'Signal a = ("signal-A", 3);\nEntity l1 = place("small-lamp", 0, -5);\nl1.enable = a > 2;\nEntity l2 = place("small-lamp", 30, -5);\nl2.enable = a > 1;\n'
+              'for i in 1..5 {\n  Entity p = place("medium-electric-pole", i * 6, -9);\n}\nEntity q = place("small-electric-pole", 15, -14);\nEntity s = place("substation", 40, -20);\n',
+              [("small-lamp", 0, -5, ()), ("small-lamp", 30, -5, ())] + [("medium-electric-pole", i * 6, -9, ()) for i in range(1, 5)] +
+              [("small-electric-pole", 15, -14, ()), ("substation", 40, -20, ())]))
     P.append(("props", 'Entity l = place("small-lamp", 5, -6, {use_colors: 1, always_on: 1, color_mode: 1});\nEntity m = place("small-lamp", 7, -6);\n',
               [("small-lamp", 5, -6, (("always_on", 1), ("color_mode", 1), ("use_colors", 1))), ("small-lamp", 7, -6, ())]))
     P.append(("wired", 'Signal a = ("signal-A", 3);\nEntity l = place("small-lamp", 5, -6);\nl.enable = a > 2;\nEntity m = place("small-lamp", 45, -6);\nm.enable = a * 2 > 3;\n'
@@ -84,6 +88,8 @@ class C09(core.Check):
         for tag, src, exp in programs(tier):
             bigp = len(exp) >= 500
             poles = [None] if bigp else ([None, "medium"] if tier == "quick" else [None, "small", "medium", "substation"])
+            if tag == "user-poles":
+                poles = [None, "small", "medium", "substation"]
             devs = [None, ("no-solution",)] if bigp else (DEVS if tier == "thorough" else DEVS[:4])
             for p in poles:
                 for d in devs:
@@ -97,21 +103,27 @@ class C09(core.Check):
             bp = harness.compile_src(src, poles=case["poles"], deviation=tuple(case["answer"]) if case["answer"] else None)
         except harness.Rejected as ex:
             return {"status": "rejected", "detail": str(ex)[:200]}
-        got = []
-        pole_proto = {"small": "small-electric-pole", "medium": "medium-electric-pole", "substation": "substation"}.get(case["poles"])
+        got, got_poles = [], []
         for e in bp["entities"]:
             if e.get("player_description"):
                 continue
-            if e["name"] in geometry.POLE_NAMES and not (e["name"] == "substation" and case["poles"] != "substation" and case["program"] == "multi-tile"):
-                continue
             tx, ty = geometry.top_left_tile(e)
-            got.append((e["name"], tx, ty, props_of(e)))
-        want = sorted((p, x, y, tuple(pr)) for p, x, y, pr in exp)
+            if e["name"] in geometry.POLE_NAMES:
+                got_poles.append((e["name"], tx, ty, props_of(e)))
+            else:
+                got.append((e["name"], tx, ty, props_of(e)))
+        want_all = sorted((p, x, y, tuple(pr)) for p, x, y, pr in exp)
+        want = [w_ for w_ in want_all if w_[0] not in geometry.POLE_NAMES]
         got = sorted(got)
-        if case["program"] == "multi-tile" and case["poles"] == "substation":
-            # the user's own substation cannot be told from the compiler's: compare without substations
-            want = [w for w in want if w[0] != "substation"]
-            got = [g for g in got if g[0] != "substation"]
+        # user-placed poles cannot be told from the compiler's own (relays, power grid) by name: every
+        # pole the program places must be present at its tile; additional poles are the compiler's
+        for w_ in want_all:
+            if w_[0] in geometry.POLE_NAMES:
+                if w_ in got_poles:
+                    got_poles.remove(w_)
+                    got.append(w_)
+                want.append(w_)
+        want, got = sorted(want), sorted(got)
         res = {"evaluations": 1, "compiles": 1, "nontrivial": len(want) > 1,
                "sample": {"program": case["program"], "expected_entities": len(want)}}
         if got != want:
